@@ -30,6 +30,7 @@ def check(ctx, run):
     paths, loops = editing.region_paths(b)
     loc = f'{b.file}:{b.line}'
     lossy = to_bits = False
+    const_image = []
     formula_ok = None
     rank_ok = True
     rank_unread = None
@@ -76,6 +77,23 @@ def check(ctx, run):
                 lossy = True
             if any(is_call(s, 'f64::to_bits') for s in subterms(v)):
                 to_bits = True
+                # the image must be the image of *this* number: a constant image on a path is right only when the path pins the number
+                # to that constant by an equality (`if n == 0.0 { 0.0 }`); a constant image under an inequality / range test gives
+                # every number of that range one key although compare tells them apart
+                for tb in [s for s in subterms(v) if is_call(s, 'f64::to_bits') and s[2]]:
+                    a_ = deref_all(tb[2][0])
+                    if a_[0] != 'const':
+                        continue
+                    num_conds = [c for c in q.conds if any(is_call(s_, 'Number::as_f64', 'Number::decode') for s_ in subterms(c[0])) and c[0][0] == 'bin']
+                    pinned = any(c[0][1] == 'Eq' and c[2] is True and any(x_[0] == 'const' for x_ in (c[0][2], c[0][3])) for c in num_conds) or \
+                        any(c[0][1] == 'Ne' and c[2] is False and any(x_[0] == 'const' for x_ in (c[0][2], c[0][3])) for c in num_conds)
+                    ranged = [c for c in num_conds if c[0][1] in ('Lt', 'Le', 'Gt', 'Ge')]
+                    if pinned:
+                        const_image.append('pinned')
+                    elif ranged:
+                        const_image.append('range: ' + show(ranged[0][0])[:120])
+                    else:
+                        const_image.append('unknown')
                 # formula: to_be_bytes(s ^ (((s >> 63) as u64) >> 1) as i64) with byte 0 xor 0x80 (the xor is an index-assign: check constant 63, 1)
                 xs = [s for s in subterms(v) if s[0] == 'bin' and s[1] == 'BitXor']
                 ok = False
@@ -112,6 +130,12 @@ def check(ctx, run):
         run.violation('R14.1', b.path, 'image[as_f64]', 'every number is mapped through as_f64 into the key: 64-bit integers beyond 2^53 lose their low bits, so numbers that compare unequal share a key', loc)
     else:
         run.proved('R14.1', b.path, 'image[as_f64]', 'no lossy conversion on the way into the key', loc)
+    rng = [x for x in const_image if x.startswith('range')]
+    if rng:
+        run.violation('R14.1', b.path, 'image[constant]', f'on a path taken for a whole range of numbers ({rng[0][7:]}) the key image is that of a constant, not of the number: numbers that compare '
+                      'unequal share one key', loc)
+    elif 'unknown' in const_image:
+        run.undecided('R14.1', b.path, 'image[constant]', 'a constant image is written on some path and the condition that selects it was not read: not decided', loc)
     if to_bits:
         run.violation('R14.1', b.path, 'image[to_bits]', 'the key is built from f64::to_bits: -0.0 and +0.0 (and 0 as an integer) compare Equal but get different key bytes', loc)
     if string_raw:
